@@ -22,7 +22,7 @@ var invoiceCorrectionDefinitions = tax.CorrectionSet{
 func normalizeInvoice(inv *bill.Invoice) {
 	// Try to move any preceding choices to the document level
 	for _, row := range inv.Preceding {
-		if len(row.Ext) == 0 {
+		if row == nil || len(row.Ext) == 0 {
 			continue
 		}
 		found := false
